@@ -88,35 +88,76 @@ def roots(term):
     for x in mir.walk(term):
         if isinstance(x, tuple) and x[0] in ("param", "upvar", "var"):
             r.add(x)
+        elif isinstance(x, tuple) and x[0] == "call" and mir.call_matches(x[1], "Iterator::next"):
+            # the element of a `for` loop plays the role the closure parameter plays in `for_each`
+            r.add(("call", x[1], x[2]))
     return r
 
 
 def helper_calls(term):
-    return {mir.short(x[1]) for x in mir.calls_in(term) if x[1].startswith("rustemo_compiler::")}
+    """local helper functions applied to the element (what produced the element - the iteration source - is not part of it)"""
+    out = set()
+    def go(x):
+        if not isinstance(x, tuple):
+            return
+        if x and x[0] == "call":
+            if mir.call_matches(x[1], "Iterator::next"):
+                return
+            if x[1].startswith("rustemo_compiler::"):
+                out.add(mir.short(x[1]))
+            for a in x[2]:
+                go(a)
+            return
+        for y in x[1:]:
+            if isinstance(y, tuple):
+                go(y)
+    go(term)
+    return out
 
 
 def r2_guards(F, res):
     rid = res.rule("C18-R2", "every push onto the item list is on the `not contained` edge of a lookup of the item's own "
                    "name in the set of existing names (type_names for types, action_names for functions)", floor=4)
     rid_b = res.rule("C18-R2b", "every pushed item is guarded by its own ident (not by another item's)", floor=1)
-    fam = [f for f in family(F) if f.kind == "Closure"]
+    fam = family(F)
     n = 0
+    seen_sites = set()
+    def is_item_list(x):
+        # the item vector of the actions file, from a closure (captured) or from the function body
+        return mir.contains(x, lambda y: y in (("upvar", "ast.items"), ("upvar", "ast"), ("var", "ast"))
+                            or (isinstance(y, tuple) and y[0] == "field" and y[2] == "items" and str(y[3]).endswith("File")))
+    def set_name(gset):
+        for y in mir.walk(gset):
+            if isinstance(y, tuple) and y[0] in ("upvar", "var"):
+                return y[1]
+            if isinstance(y, tuple) and y[0] == "call" and len(y) > 3 and isinstance(y[3], tuple) and y[3][0] == "as":
+                return y[3][1]
+        return fmt(gset)
     for f in fam:
-        ups = [u["name"] for u in (f.d.get("upvars") or [])]
-        if "ast.items" not in ups and "ast" not in ups:
+        if f.kind == "Closure":
+            ups = [u["name"] for u in (f.d.get("upvars") or [])]
+            if "ast.items" not in ups and "ast" not in ups:
+                continue
+        try:
+            fpaths = Sim(f, F, max_paths=100000).run()
+        except mir.PathLimit:
+            res.anchor_lost(rid, "too many paths in %s" % f.path, f.loc())
             continue
-        for p in Sim(f, F).run():
+        for p in fpaths:
             guard = None   # last contains cond
             for e in p.events:
                 if e[0] == "cond":
                     g = contains_guard(e[1])
                     if g:
                         guard = (g, e[2])
-                elif e[0] == "call" and e[1].startswith("alloc::vec::Vec::<T, A>::push") and \
-                        e[2] and mir.contains(e[2][0], lambda x: x == ("upvar", "ast.items") or x == ("upvar", "ast")):
-                    n += 1
+                elif e[0] == "call" and (e[1].startswith("alloc::vec::Vec::<T, A>::push") or e[1].endswith(">::extend")) and \
+                        e[2] and len(e[2]) > 1 and is_item_list(e[2][0]):
                     item = e[2][1]
                     where = "%s:%s" % (f.file, e[3])
+                    if (where, e[1]) in seen_sites:
+                        continue
+                    seen_sites.add((where, e[1]))
+                    n += 1
                     prod = [c for c in mir.calls_in(item) if "ActionsGenerator" in c[1] or "nonterminal_" in c[1]
                             or "terminal_" in c[1]]
                     pname = mir.short(prod[0][1]).split("::")[-1] if prod else fmt(item)[:40]
@@ -126,8 +167,7 @@ def r2_guards(F, res):
                                       "(duplicates on every regeneration)", where)
                         continue
                     (gset, gkey), gval = guard
-                    setname = [x[1] for x in mir.walk(gset) if isinstance(x, tuple) and x[0] == "upvar"]
-                    setname = setname[0] if setname else fmt(gset)
+                    setname = set_name(gset)
                     if gval != 0:
                         res.violation(rid, key, "the item is appended when its name IS already in %s (inverted guard)" % setname, where)
                         continue
